@@ -296,19 +296,26 @@ def check(src, rep):
     # call site: connect_loop calls it exactly on a loss that is not a close
     cl = CM.methods.get("connect_loop")
     rep.require(cl is not None, "anchor vanished: ConnectionManager.connect_loop")
-    calls = [n for n in ast.walk(cl.node) if isinstance(n, ast.Call) and isinstance(n.func, ast.Attribute) and n.func.attr == ub.name]
-    parents = {c: p for p in ast.walk(cl.node) for c in ast.iter_child_nodes(p)}
-    okc = len(calls) == 1
-    if okc:
-        n = calls[0]
-        guard = None
-        while n in parents:
-            n = parents[n]
-            if isinstance(n, ast.If):
-                guard = n
-                break
-        closing = [a for a, v in CM.field_inits.items() if isinstance(v, ast.Call) and ast.unparse(v.func).split(".")[-1] == "Event"]
-        okc = guard is not None and len(closing) == 1 and ast.unparse(guard.test).replace(" ", "") == f"notself.{closing[0]}.is_set()" and any(calls[0] is x for s in guard.body for x in ast.walk(s))
+    # on the resolved iteration paths (helpers and awaited helper coroutines inlined): the last-loss time is written exactly on the paths that held a
+    # connection and, after the wait on done/closing, find the closing event not set
+    from sa.paths import loop_body_paths
+    closing = [a for a, v in CM.field_inits.items() if isinstance(v, ast.Call) and ast.unparse(v.func).split(".")[-1] == "Event"]
+    rep.require(len(closing) == 1, "cannot bind the closing event")
+    conn_f = [a for a in CM.field_inits if a.strip("_") == "connection"]
+    _, ips = loop_body_paths(Engine(M, inline_async=True), cl)
+    okc = bool(ips)
+    n_upd = 0
+    for p in ips:
+        upd = any(e[0] == "write" and e[1] == SELF and e[2] == LAST for e in p.effects)
+        tests = [(g, pol) for g, pol, _ in p.guards if g[0] == "call" and g[1] == ".is_set" and strip_epoch(g[2][0]) == ("f0", SELF, closing[0])]
+        waited = [e for e in p.effects if e[0] == "await" and "done" in str(e[1])]
+        later = [(g, pol) for g, pol in tests if waited and (g[2][0][3] if len(g[2][0]) > 3 else 0) > waited[-1][3]]
+        lost = bool(waited) and bool(later) and later[-1][1] is False
+        if upd:
+            n_upd += 1
+        if upd != lost:
+            okc = False
+    okc = okc and n_upd >= 1
     if okb and okc:
         rep.ok("R4", "loss breaker", "flag := (now - last loss) < threshold on every repeated loss, last-loss time always updated, called from connect_loop exactly when the loss is not a close")
     elif not okc:
